@@ -25,8 +25,9 @@ THOROUGH_SCALE = {"C02": 3.0, "C03": 2.5, "C04": 2.0, "C05": 2.0, "C07": 3.0, "C
                   "C12": 1.5}
 THOROUGH_SCALE_DEFAULT = 5.0
 # same for the quick tier: target ~30-60 s wall per property on 16 cores
-QUICK_SCALE = {"C10": 2.0, "C11": 3.0, "C14": 3.0, "C15": 2.0, "C16": 3.0, "C17": 4.0, "C18": 4.0, "C19": 4.0, "C20": 3.0,
-               "C06": 1.5, "C08": 1.5}
+QUICK_SCALE = {"C01": 3.0, "C02": 3.0, "C03": 2.0, "C04": 1.5, "C06": 2.5, "C07": 2.5, "C08": 2.0, "C09": 2.0, "C10": 4.0,
+               "C11": 4.0, "C12": 1.5, "C13": 1.5, "C14": 5.0, "C15": 3.0, "C16": 4.0, "C17": 8.0, "C18": 6.0, "C19": 6.0,
+               "C20": 6.0}
 
 
 def load_prop(prop):
